@@ -107,16 +107,18 @@ Print Assumptions model_chunk_size_parser_ok.
    occur, every piece of the response reaches the client, in order; only a reset loses them *)
 Theorem h3_response_survives_the_end_of_the_request :
   forall evs, ~ In ClientReset evs ->
-    delivered (h3run H3_REQUEST_END_KEEPS_RESPONSE_DIRECTION evs) = responses evs
-    /\ lost (h3run H3_REQUEST_END_KEEPS_RESPONSE_DIRECTION evs) = [].
+    delivered (h3run H3_REQUEST_END_KEEPS_RESPONSE_DIRECTION H3_SINK_WRITE_AS_MODELLED evs) = responses evs
+    /\ lost (h3run H3_REQUEST_END_KEEPS_RESPONSE_DIRECTION H3_SINK_WRITE_AS_MODELLED evs) = [].
 Proof. exact every_response_piece_is_delivered_proof. Qed.
 Print Assumptions h3_response_survives_the_end_of_the_request.
 
-(* as found: a FIN that arrives before the response loses it *)
+(* as found: a FIN that arrives before the response loses it; and (a seeded slip) a stream forgotten as soon as one
+   direction is shut loses whatever still has to wait for credit *)
 Example ex_fin_first_loses_the_response :
-  lost (h3run false [ClientFin; Respond 200; Respond 1]) = [200%N; 1%N]
-  /\ delivered (h3run true [ClientFin; Respond 200; Respond 1]) = [200%N; 1%N].
-Proof. split; reflexivity. Qed.
+  lost (h3run false true [ClientFin; Respond 200; Respond 1]) = [200%N; 1%N]
+  /\ lost (h3run true false [ClientFin; Respond 200; Respond 1]) = [200%N; 1%N]
+  /\ delivered (h3run true true [ClientFin; Respond 200; Respond 1]) = [200%N; 1%N].
+Proof. repeat split; reflexivity. Qed.
 
 Theorem code_facts :
   FWD_CHUNK_DATA_COUNTS_ACCEPTED_AND_KEEPS_STATE = true /\ FWD_NON_ENCODED_COUNTS_ACCEPTED = true
